@@ -511,8 +511,9 @@ static void judge(Ctx &C, const RG &g, const Labelling &L, bool exhaustive_start
           if (X.getNode(id) != G.getNode(id)) { R.violation("reduce/expand-node-content", "expand(reduce(G)) changed a node's content", witness(g, L).i("vertex", id)); break; }
       }
     }
-    // ---- (8) structure id of the plain graphs
-    {
+    // ---- (8) structure id of the plain graphs (small graphs only: monitor (1) runs the same function, and each
+    //      call explores the graph from every vertex of maximal degree)
+    if (g.n <= 12) {
       R.eval("structure_id");
       Graph GA = build(g, N).getGraph(), GB = build(g, L).getGraph();
       std::string ia = findStructureId<GraphDistVisitor>(GA), ib = findStructureId<GraphDistVisitor>(GB);
